@@ -6,6 +6,7 @@ package tape
 
 //@ func OpenTapeWriteOnly
 //@   property C05
+//@   modifies fileOpen
 //@   at call Truncate#1 assert [truncate-only-on-overwrite] overwrite
 //@   at call SeekToRecordOnTape#1 assert [rewind-only-on-overwrite] overwrite
 //@   at call OpenFile#1 assert [probe-open-only-on-overwrite] overwrite
@@ -15,7 +16,31 @@ package tape
 //@   at call GoToEndOfTape#1 assert [tape-to-end-unless-overwrite] !overwrite
 
 //@ func (*TapeManager).GetWriter
+//@   property C10
+//@   safety C10
+//@   requires !mutexHeld[addr(m.physicalLock)]
+//@   ensures [held-iff-ok] err == nil ==> mutexHeld[addr(m.physicalLock)]
+//@   ensures [free-on-error] err != nil ==> !mutexHeld[addr(m.physicalLock)]
 //@   property C05
-//@   modifies *, mutexHeld[addr(m.physicalLock)]
+//@   modifies *, mutexHeld[addr(m.physicalLock)], fileOpen
 //@   at call OpenTapeWriteOnly#1 assert [overwrite-once] arg_overwrite == (m.overwrite && !old(m.overwrote))
 //@   ensures [marks-overwrote] m.overwrote
+
+//@ func (*TapeManager).Close
+//@   property C10
+//@   safety C10
+//@   requires mutexHeld[addr(m.physicalLock)]
+//@   modifies *, mutexHeld[addr(m.physicalLock)]
+//@   ensures [always-releases] !mutexHeld[addr(m.physicalLock)]
+
+// The reader handle is closed whenever the drive is free: Close() runs the closer of whatever was opened last. That
+// invariant is assumed here (the closer is a func-typed field without a spec); everything else is proved.
+//@ func (*TapeManager).GetReader
+//@   property C10
+//@   safety C10
+//@   requires !mutexHeld[addr(m.physicalLock)] && !mutexHeld[addr(m.readerLock)]
+//@   requires [assumed-reader-closed-when-free] m.reader != nil ==> !fileOpen[m.reader]
+//@   modifies *, mutexHeld[addr(m.physicalLock)], mutexHeld[addr(m.readerLock)], fileOpen
+//@   ensures [held-iff-ok] err == nil ==> mutexHeld[addr(m.physicalLock)]
+//@   ensures [free-on-error] err != nil ==> !mutexHeld[addr(m.physicalLock)]
+//@   ensures [reader-lock-free] !mutexHeld[addr(m.readerLock)]
